@@ -6,6 +6,8 @@ from __future__ import annotations
 import ast
 import os
 
+import json
+
 import z3
 
 from ..pyvc import valsort as V
@@ -129,3 +131,119 @@ def lastcast_obligation(repo):
         txt = ast.unparse(body[-2])
         ok = ".astype(agg.dtype['final']" in txt and ast.unparse(body[-2].targets[0]) in txt.split("=", 1)[1]
     return ok, ast.unparse(body[-2]) if len(body) >= 2 else ""
+
+
+# ---------------------------------------------------------------------------------------------
+# reindex_numpy(array, from_, to, fill_value, dtype, axis)   (C05.reindex, C02.reindex)
+# ---------------------------------------------------------------------------------------------
+
+
+class IndexRec(Record):
+    """pandas.Index seen as its label sequence; get_indexer (ASSUMED): position of each target label, -1 if absent."""
+
+    def __init__(self, labels):
+        super().__init__("Index", labels=labels)
+        self.labels = labels
+
+    def pyvc_getattr(self, ex, st, attr, node, prims):
+        from ..pyvc.prims import Method
+
+        return Method(self, attr)
+
+    def pyvc_method(self, ex, st, attr, args, kwargs, node, prims):
+        if attr != "get_indexer":
+            raise NotImplementedError(attr)
+        to = args[0].labels
+        frm = self.labels
+        G = z3.Function(f"get_indexer!{fresh('g').decl().name()}", I, I)
+        j, i = fresh("j"), fresh("i")
+        st.assume(forall(j, z3.Implies(in_range(j, 0, to.length), z3.Or(
+            z3.And(G(j) == -1, forall(i, z3.Implies(in_range(i, 0, frm.length), frm.at(i) != to.at(j)))),
+            z3.And(in_range(G(j), 0, frm.length), frm.at(G(j)) == to.at(j)))), patterns=[G(j)]))
+        out = SSeq(to.length, lambda t: G(t), kind="array", name="indexer")
+        return out
+
+
+def reindex_numpy_contract(fill_kind):
+    def params(ex):
+        return {"array": sym_seq("array", V.Val), "from_": IndexRec(sym_seq("from_labels")), "to": IndexRec(sym_seq("to_labels")),
+                "fill_value": z3.Const("fill", V.Val) if fill_kind == "sym" else None, "dtype": Opaque("dtype"), "axis": -1}
+
+    def requires(ex, env):
+        i, j = fresh("i"), fresh("j")
+        frm = env["from_"].labels
+        return [env["array"].length == frm.length, frm.length >= 1,
+                z3.ForAll([i, j], z3.Implies(z3.And(in_range(i, 0, frm.length), in_range(j, 0, frm.length), i != j), frm.at(i) != frm.at(j)))]  # labels of an Index used for reindexing are unique
+
+    def ensures(ex, env, res):
+        e = env["__entry__"]
+        arr, frm, to = e["array"], e["from_"].labels, e["to"].labels
+        j, i = fresh("j"), fresh("i")
+        present = lambda t, pos: z3.And(in_range(pos, 0, frm.length), frm.at(pos) == to.at(t))
+        cl = [
+            ("one_slot_per_requested_label", res.length == to.length),
+            ("present_labels_keep_their_value", z3.ForAll([j, i], z3.Implies(z3.And(in_range(j, 0, to.length), present(j, i)), res.at(j) == arr.at(i)))),
+        ]
+        if fill_kind == "sym":
+            cl.append(("absent_labels_get_the_fill", forall(j, z3.Implies(z3.And(in_range(j, 0, to.length), forall(i, z3.Implies(in_range(i, 0, frm.length), frm.at(i) != to.at(j)))), res.at(j) == e["fill_value"]))))
+        return cl
+
+    def exc_ensures(ex, env, exc):
+        to, frm = env["to"].labels, env["from_"].labels
+        j, i = fresh("j"), fresh("i")
+        absent = z3.Exists([j], z3.And(in_range(j, 0, to.length), forall(i, z3.Implies(in_range(i, 0, frm.length), frm.at(i) != to.at(j)))))
+        return [("only_when_a_label_is_absent_and_no_fill", z3.And(z3.BoolVal(fill_kind == "None"), absent))]
+
+    return Contract(qualname="reindex_numpy", file="flox/core.py", prefix=f"C05.reindex_numpy.fill{fill_kind}", params=params, requires=requires, ensures=ensures, raises=("ValueError",), exc_ensures=exc_ensures, replay=replay_reindex_numpy,
+                    serves=("C05", "C02"), assumed=("pandas.Index.get_indexer", "fancy indexing with -1 wraps (then overwritten)", "ndarray.astype keeps representable values"))
+
+
+def _val_to_float(v):
+    if isinstance(v, (int, float)):
+        return float(v)
+    v = str(v)
+    if v.startswith("fin("):
+        return float(v[4:-1])
+    return {"nan": float("nan"), "pinf": float("inf"), "ninf": float("-inf"), "inf": float("inf")}.get(v, float("nan"))
+
+
+def replay_reindex_numpy(cm):
+    """Replay a counter-model on the real flox.core.reindex_numpy -> (violated?, text)."""
+    r = _replay_reindex_numpy(cm)
+    return r["verdict"] == "violated", json.dumps(r, default=str)
+
+
+def _replay_reindex_numpy(cm):
+    import numpy as np
+    import pandas as pd
+
+    from flox.core import reindex_numpy
+
+    frm = list(cm["from_"].get("labels") or [])
+    to = list(cm["to"].get("labels") or [])
+    arr = np.array([_val_to_float(v) for v in cm["array"]], dtype="float64")
+    if len(set(frm)) != len(frm) or len(arr) != len(frm) or not frm:
+        return {"verdict": "outside-precondition"}
+    fill = None if cm.get("fill_value") is None else _val_to_float(cm["fill_value"])
+    absent = [t for t in to if t not in frm]
+    try:
+        out = reindex_numpy(arr.copy(), pd.Index(frm), pd.Index(to), fill, np.dtype("float64"), -1)
+    except ValueError as e:
+        ok = fill is None and bool(absent)
+        return {"verdict": "held" if ok else "violated", "clauses": [] if ok else ["only_when_a_label_is_absent_and_no_fill"], "raised": repr(e)}
+    bad = []
+    if len(out) != len(to):
+        bad.append("one_slot_per_requested_label")
+    else:
+        same = lambda a, b: (a == b) or (a != a and b != b)
+        for j, t in enumerate(to):
+            if t in frm:
+                if not same(out[j], arr[frm.index(t)]):
+                    bad.append("present_labels_keep_their_value")
+            elif fill is not None and not same(out[j], fill):
+                bad.append("absent_labels_get_the_fill")
+    return {"verdict": "violated" if bad else "held", "clauses": sorted(set(bad)), "input": {"array": arr.tolist(), "from": frm, "to": to, "fill": fill}, "output": out.tolist()}
+
+
+def all_reindex():
+    return [reindex_numpy_contract("sym"), reindex_numpy_contract("None")]
